@@ -81,4 +81,15 @@ PROPS = {
         quick=dict(shards=16, checks=1000, extra=["TestQuota", "TestH3", dict(run="TestNearSweep", shards=4)], timeout=600),
         thorough=dict(shards=16, checks=20000, extra=["TestQuota", "TestH3", dict(run="TestNearSweep", shards=16)], timeout=3000),
     ),
+    "C04": dict(
+        pkg="c04",
+        technique="property-based round-trip testing (rapid) over the reversible single-tile configuration product, plus a deterministic size grid",
+        level_text="Exploration: seeded rapid generators over image (1-4 components, precision 1-16, signed/unsigned, noise-dominant content) x configuration (levels 0-6, code-block sizes, precinct sizes, five progression orders, 1-6 layers, MCT); thorough adds the 1..40 x 1..40 size grid.",
+        level_note="Round trip through the library's own encoder/decoder (stream validity is C16); trusts the Go runtime.",
+        rule=("rapid-generated (image, reversible single-tile configuration). Non-trivial: >= 2 distinct sample values and layers*(levels+1)*components >= 2 packets. "
+              "Labels empty-subband / image<codeblock are computed from the drawn geometry, body-contains-FF from the emitted tile-part bodies via the independent walker. Distinct = hash of the case."),
+        assumptions=COMMON_ASSUME,
+        quick=dict(shards=16, checks=250, extra=["TestQuota"], timeout=900),
+        thorough=dict(shards=16, checks=3000, extra=["TestQuota", dict(run="TestGrid", shards=16)], timeout=3400),
+    ),
 }
